@@ -162,6 +162,23 @@ def run(ctx):
                                         clause="masked points never influence any of it")
                 except Exception as x:  # noqa
                     ctx.add_failing("masked-points-influence-result", {"entry": name, **desc}, observed=f"raises {type(x).__name__} after changing only masked points", expected="same result")
+            # the same object after its mask has been cleared (observe - change the mask - observe): the result must be the one a
+            # freshly built data set in that state gives
+            if m and not name.startswith("calculate_drt[bht]") and (big or mf == 0.15):
+                d.set_mask({})
+                fresh = DataSet.from_dict(json.loads(json.dumps(d.to_dict())))
+                try:
+                    with np.errstate(all="ignore"):
+                        ra, rb = fn(d), fn(fresh)
+                    ctx.count(f"{name}:mask-cleared-on-same-object")
+                    for r in ra:
+                        check_result(ctx, name, {**desc, "history": "analysed with a mask, then set_mask({}), analysed again"}, r, fresh)
+                    if [signature(r) for r in ra] != [signature(r) for r in rb]:
+                        ctx.add_failing("stale-view-after-mask-change", {"entry": name, **desc, "history": "analysed with a mask, then set_mask({}), analysed again"},
+                                        observed=f"{[len(r.frequencies) for r in ra]} frequencies", expected=f"{[len(r.frequencies) for r in rb]} (a fresh data set without mask)",
+                                        clause="the result's frequencies are exactly the unmasked frequencies of the input data set")
+                except Exception as x:  # noqa
+                    ctx.count(f"{name}:mask-cleared:raised:{type(x).__name__}")
             if len(ctx.failing) > 8:
                 return
     # Z-HIT in the admittance representation on data whose admittance has a negative real part (the data is shifted internally)
